@@ -536,7 +536,15 @@ class Translator:
             (r'^<\[T\] as Index(Mut)?<RangeFrom<usize>>>::index(_mut)?$', 'rt_slice_index_from'),
             (r'^<\[T\] as Index(Mut)?<Range<usize>>>::index(_mut)?$', 'rt_slice_index_range'),
             (r'^<impl \[T\]>::split_at(_mut)?$', 'rt_split_at'),
-            (r'^drop_in_place$', 'rt_drop_in_place_slice'),
+            (r'^drop_in_place$', 'DROP_IN_PLACE'),
+            (r'^MaybeUninit::assume_init_drop$', 'rt_drop_one'),
+            (r'^write$', 'rt_ptr_write'),
+            (r'^swap$', 'rt_mem_swap'),
+            (r'^Option::unwrap$', 'rt_option_expect'),
+            (r'^<impl usize>::saturating_sub$', 'rt_saturating_sub'),
+            (r'^<impl usize>::wrapping_add$', 'rt_wrapping_add'),
+            (r'^<impl usize>::wrapping_sub$', 'rt_wrapping_sub'),
+            (r'^max$|^<usize as Ord>::max$', 'rt_max'),
             (r'^<impl usize>::overflowing_add$', 'rt_AddWithOverflow'),
             (r'^<impl usize>::checked_add$', 'rt_checked_add'),
             (r'^<impl usize>::checked_sub$', 'rt_checked_sub'),
@@ -710,6 +718,8 @@ class Translator:
                 return ['%s = %s.ptr;' % (de, avs[0][0])] + goto_ret
             if name == 'rt_slice_eq_ref':
                 return [s.guarded('%s = rt_slice_eq(*%s, *%s);' % (de, avs[0][0], avs[1][0]), unw)] + goto_ret
+            if name == 'DROP_IN_PLACE':
+                name = 'rt_drop_in_place_slice' if is_fat(avs[0][1]) else 'rt_drop_one'
             if name == 'rt_identity': call = avs[0][0]
             elif name == 'rt_identity_range': call = avs[0][0]
             elif name == 'rt_deref_ptr': call = '(*%s)' % avs[0][0]
@@ -722,6 +732,7 @@ class Translator:
                     call = '(fat_tok){ (%s)->a, %s }' % (avs[0][0], s.ct.clen(avs[0][1][1][2]))
                 else: call = '(fat_tok){ EMPTY, 0 }'
             elif name == 'rt_min': call = 'rt_min(%s, %s)' % (avs[0][0], avs[1][0])
+            elif name == 'rt_max': call = 'rt_max(%s, %s)' % (avs[0][0], avs[1][0])
             elif name == 'rt_option_expect': call = 'rt_option_expect(%s.disc) ? %s.v : %s.v' % (avs[0][0], avs[0][0], avs[0][0])
             else: call = '%s(%s)' % (name, ', '.join(a[0] for a in avs))
             if dct == 'opaque_t' or call is None: stmt = (call + ';') if call and '(' in call and not call.startswith('(') else ''
